@@ -104,7 +104,7 @@ P["C15"] = {
         "the context reports context.Canceled or context.DeadlineExceeded (both enumerated)"],
     "bounds": "Tier A: n <= 3 rules, K <= 3 firings; the context may be (or become) cancelled before the call and inside every condition, action and listener callback",
     "outside": "runs longer than K; contexts whose Err() is not monotone",
-    "runs": [tierA(2, 2, fCancel, QT), tierA(3, 1, fCancel, Q), tierA(3, 2, fCancel, T), tierA(2, 3, fCancel, T), tierA(2, 2, fCancel | fErr | fFlag, T), tierA(2, 2, fCancel | fRetract | fListen, T)]}
+    "runs": [tierA(2, 2, fCancel, QT), tierA(2, 2, fCancel | fRetract, QT), tierA(3, 1, fCancel, Q), tierA(3, 2, fCancel, T), tierA(2, 3, fCancel, T), tierA(2, 2, fCancel | fErr | fFlag, T), tierA(2, 2, fCancel | fRetract | fListen, T)]}
 P["C08"] = {
     "design_ref": "DESIGN.md §8 C08, Appendix B", "assumptions": TIERA_ASSUME,
     "bounds": "Tier A: histories of <= 3 calls (Execute, ExecuteWithContext with a cancellable context, FetchMatchingRules) on one instance, n <= 3 rules, K <= 2 firings per call; every way of ending arises from the stubs",
@@ -194,8 +194,8 @@ P["C13"] = {
 def memoStep(setname, state, tiers):
     sn = {0: "filled", 1: "empty", 2: "alternating-a", 3: "alternating-b"}[state]
     return {"name": "memo-step-%s-%s" % (setname, sn), "pkgdir": "zztier", "harness": TIERC_H, "entry": "VerifMemoStep", "args": [setname, state], "tiers": tiers,
-            "templates": tfiles(TB_SETS[setname]), "require_reach": ["memo:step-executed", "memo:remembered-expression-checked"], "compare_events": False,
-            "bounds": "inductive memo step on every template of set '%s': arbitrary (symbolic) facts, memo state '%s' consistent with them, ONE arbitrary rule's action list; afterwards every node still marked Evaluated holds the memo-free value (invariant INV, which implies C01/C02 in every later cycle: no run-length bound for these templates)" % (setname, sn)}
+            "templates": tfiles(TB_SETS[setname]), "require_reach": ["memo:step-executed", "memo:remembered-expression-checked", "memo:sweep-after-the-step"], "compare_events": False,
+            "bounds": "inductive memo step on every template of set '%s': arbitrary (symbolic) facts, memo state '%s' consistent with them, ONE arbitrary rule's action list; afterwards - and again after the evaluation sweep of the next cycle - every node still marked Evaluated holds the memo-free value and nothing is remembered for a node whose evaluation fails (invariant INV, which implies C01/C02 in every later cycle: no run-length bound for these templates)" % (setname, sn)}
 
 
 for pid in ("C01", "C02"):
